@@ -21,7 +21,7 @@ RULE = (
 )
 ASSUMPTIONS = [
     "scipy NNLS only proposes multipliers; any lambda >= 0 gives a valid lower bound, so numerical error cannot wrongly certify",
-    "known finding K1 (solve() stops at a stationary cost on non-forest graphs) is attributed only by its full signature",
+    "no known finding is open: K1 (solve() stopped at a stationary cost on non-forest graphs) was repaired by /repo commit 7f5c760 and its instance is replayed on every run",
     "termination is approximated by a watchdog plus a deterministic executed-line budget",
 ]
 MIN_FRACTIONS = {"dag": 0.6, "cyclic": 0.1, "shape:forest": 0.05, "path:split-between (violated constraint inside one block)": 0.02, "path:block-split (negative multiplier)": 0.03, "nontrivial": 0.5, "n>=10": 0.2, "non-unit-weights": 0.15, "non-unit-scales": 0.15, "has-duplicates": 0.1, "has-redundant-path": 0.1, "certified": 0.6}
@@ -429,35 +429,18 @@ def check(spec, ctx):
         ctx.event("inconclusive (no certificate, no witness)")
         ctx.extra["inconclusive"] = ctx.extra.get("inconclusive", 0) + 1
         return nontrivial
-    # K1 signature: feasible (checked above), suboptimal (witness), non-forest, and continued satisfy() certifies
+    # does continuing satisfy() on the same solver reach a certified optimum (i.e. did solve() merely stop early)?
     g1, c1, tol1 = certify(spec, x1)
     stalled = g1 <= tol1
     bucket = "suboptimal"
-    if stalled and not forest and same_as_k1_baseline(spec, x):
-        bucket = "suboptimal:stall-on-non-forest-graph"
     raise Violation(bucket, "cost %.9g, witness (%s) exactly feasible with cost %.9g; continued satisfy() %s; forest=%r" % (float(c), best[0], float(best[1]), "reaches the certified optimum" if stalled else "does not certify", forest))
 
 
 KNOWN = {}
 
 
-def same_as_k1_baseline(spec, x):
-    """does the frozen baseline solver (pinned tree + D1) return these very positions on this instance?"""
-    from vlib import k1_reference_vpsc as ref
-
-    try:
-        vs = [ref.Variable(d, w, s) for d, w, s in zip(spec["des"], spec["ws"], spec["ss"])]
-        cs = [ref.Constraint(vs[i], vs[j], g) for i, j, g in spec["cons"]]
-        ref.Solver(vs, cs).solve()
-        xr = [v.position() for v in vs]
-    except Exception:
-        return False
-    return all(abs(a - b) <= 1e-9 * (1 + abs(a) + abs(b)) for a, b in zip(x, xr))
-
-
 def attribute(bucket, spec, msg):
-    if bucket == "suboptimal:stall-on-non-forest-graph" and "K1" in KNOWN:
-        return "K1"
+    """no known finding is open for this property (K1 was repaired by /repo commit 7f5c760)"""
     return None
 
 
